@@ -59,6 +59,9 @@ type Unit struct {
 	pdoms     map[*ssa.Function]map[*ssa.BasicBlock]*ssa.BasicBlock
 	noMerge   bool
 	entryParams map[string]SV
+	curArgTypes []types.Type
+	lastArgTypes map[string][]types.Type
+	entryLocks int
 }
 
 const maxPaths = 6000
@@ -1033,8 +1036,9 @@ func (u *Unit) typeAssert(st *State, x *ssa.TypeAssert) {
 			if _, named := x.AssertedType.(*types.Named); !named {
 				iname = "iface{" + methodNames(in) + "}"
 			}
-			pn := "implements!" + smtName(iname)
-			u.decls.Add(pn, fmt.Sprintf("(declare-fun %s (Int) Bool)\n(assert (not (%s 0)))", pn, pn))
+			pn := "implements_" + smtName(iname)
+			u.decls.Add("ghost:"+pn, fmt.Sprintf("(declare-fun %s (Int) Bool)", pn))
+			u.decls.Add(pn+"!nil", fmt.Sprintf("(assert (not (%s 0)))", pn))
 			ok = app(SBool, pn, ity)
 		}
 		val = v
